@@ -200,6 +200,19 @@ CLAIMED['C10'] = dict(
          'the simulated start-up; the write-once-before-first-poll and rejected-whole clauses need the running node.',
     design='6/C10')
 
+CLAIMED['C18'] = dict(
+    level='exploration',
+    text='Seeded search over generated layouts (StructParam with combined or member access methods, FloatEnumParam label '
+         'sets, limit parameters min/max/limits, 1..3 HasOutputModule controllers on one HasControlledBy output) and '
+         'operation histories issued alternately by a wire client and by the driver while the poll thread runs. After '
+         'every operation: struct and members agree member by member and a write leaves the other members alone; the '
+         'cached float value belongs to the cached index and a float write selects the closest allowed value; no value '
+         'outside the limits in force reaches the driver and an inverted limits pair is refused; at most one controller '
+         'is active, the output names exactly it, a take-over switches the previous one off.',
+    note='Trusted: simulation kernel, generated classes with hardware registers. Operations of client and driver are '
+         'issued one after the other (the invariants are quiescent-point invariants); the poll thread runs concurrently.',
+    design='6/C18')
+
 NOT_APPLICABLE = {
     'C01': 'pure function of (datatype, candidate, previous) - no schedule, clock, I/O or fault dimension for a simulator to decide',
     'C02': 'pure round-trip law over (datatype, value) - no schedule, clock, I/O or fault dimension',
